@@ -1264,6 +1264,14 @@ func blockReaches(a, b *ssa.BasicBlock) bool {
 // goroutines too (the arguments are evaluated at the go statement). The goroutine itself is not executed.
 func (fr *Frame) checkGo(x *ssa.Go) {
 	e := fr.e
+	// built-in ghost gostarts: the number of go statements executed by the function under contract itself
+	// (and the code inlined into it); calls with unknown effects do not change it
+	if _, ok := e.L.specs.GhostVars["gostarts"]; ok {
+		srt := sBV64
+		e.keySort["X:gostarts"] = srt
+		cur := e.heapGet(fr.st, "X:gostarts", srt)
+		e.heapSet(fr.st, "X:gostarts", srt, mkIte(fr.pc, bvAdd(cur, bvLitI(64, 1)), cur))
+	}
 	if e.spec == nil || len(e.spec.CallPre) == 0 {
 		return
 	}
